@@ -74,6 +74,8 @@ func alphabetC06() []m.Op {
 		{K: "createIndex", Coll: "a", Field: "x"}, {K: "createIndex", Coll: "a", Field: "xy"}, {K: "createIndex", Coll: "ab", Field: "x"},
 		{K: "dropIndex", Coll: "a", Field: "x"}, {K: "dropIndex", Coll: "a", Field: "xy"},
 		{K: "replaceById", Coll: "a", Id: u2, Docs: []m.Doc{doc(u2, "x", int64(1))}},
+		// an update function that removes the documents it is given: documents, index entries and the count go together
+		{K: "updateFunc", Q: qOn("a", m.Leaf("eq", "x", int64(1))), Upd: &m.Updater{Nil: true}},
 	}
 }
 
